@@ -343,7 +343,9 @@ func slotConstants(w *World, fn *ssa.Function, slots map[*types.Var]string, call
 		if !isSlot {
 			return
 		}
-		if c, _ := resultOfCall(st.Val); c != nil && c.Common().StaticCallee() != nil && c.Common().StaticCallee().Name() == calleeName && idx < len(c.Common().Args) {
+		// the slot is built by a factory of the same package that is handed the status code
+		if c, _ := resultOfCall(st.Val); c != nil && c.Common().StaticCallee() != nil && fnPkgPath(c.Common().StaticCallee()) == fnPkgPath(fn) && idx < len(c.Common().Args) {
+			_ = calleeName
 			if v, ok := constInt(stripConv(c.Common().Args[idx])); ok {
 				out[name] = v
 			}
@@ -358,7 +360,17 @@ func c12Defaults(w *World, r *Report, hs, gs map[*types.Var]string) {
 		"WithAuthenticationErrorCode": 401, "WithAuthorizationErrorCode": 403, "WithCommunicationErrorCode": 502,
 		"WithPreconditionErrorCode": 400, "WithNoRuleErrorCode": 404, "WithInternalServerErrorCode": 500,
 	}
-	httpDef := w.Func(httpEHPkg, "defaultOptions")
+	// the HTTP defaults: the function of the package that fills (nearly) all slots at once
+	var httpDef *ssa.Function
+	best := 0
+	for _, fn := range w.Funcs {
+		if fnPkgPath(fn) != modPath+"/"+httpEHPkg || w.isMockFn(fn) || fn.Parent() != nil {
+			continue
+		}
+		if n := len(slotConstants(w, fn, hs, "", 1)); n > best {
+			best, httpDef = n, fn
+		}
+	}
 	var got map[string]int64
 	if httpDef != nil {
 		r.Analysed(w.FnName(httpDef))
@@ -580,6 +592,25 @@ func c12Redirect(w *World, r *Report, httpT, grpcT *ssa.Function) {
 	r.Ob(ri, "redirect-handler|code-or-302", token.NoPos, ok, "the redirect error handler must use the configured code, else 302")
 }
 
+// isBodyRenderer: the function that renders an error into a response body (the one marshalling it);
+// identified by what it does, not by its name.
+func isBodyRenderer(fn *ssa.Function) bool {
+	if fn == nil || fn.Blocks == nil {
+		return false
+	}
+	return len(findCalls(fn, func(c *ssa.CallCommon) bool {
+		n := callName(c)
+		return n == "encoding/xml.Marshal" || strings.HasSuffix(n, "json.Marshal")
+	})) > 0
+}
+
+// isOwnBoolField: v is a load of a bool field of a struct declared in package p (the handler's
+// verbose flag is the only such field of its options).
+func isOwnBoolField(v ssa.Value, p string) bool {
+	_, f := fieldLoad(v)
+	return f != nil && isBool(f.Type()) && f.Pkg() != nil && f.Pkg().Path() == p
+}
+
 func c12Verbosity(w *World, r *Report) {
 	ri := r.Rule("C12.5", 3, "error details are put into the response only when verbose responses are enabled")
 	// HTTP: format() is called only through the verbose flag
@@ -591,7 +622,7 @@ func c12Verbosity(w *World, r *Report) {
 		}
 		for _, c := range callsIn(fn) {
 			callee := c.Common().StaticCallee()
-			if callee == nil || callee.Name() != "format" || fnPkgPath(callee) != p {
+			if callee == nil || fnPkgPath(callee) != p || !isBodyRenderer(callee) || isBodyRenderer(fn) {
 				continue
 			}
 			n++
@@ -600,7 +631,7 @@ func c12Verbosity(w *World, r *Report) {
 				if f.Kind != FTrue {
 					return false
 				}
-				if pathEndsWith(f.V, "verboseErrors") {
+				if isOwnBoolField(f.V, p) {
 					return true
 				}
 				if pr, isP := f.V.(*ssa.Parameter); isP && isBool(pr.Type()) {
@@ -615,7 +646,7 @@ func c12Verbosity(w *World, r *Report) {
 			n++
 			ok := true
 			for _, o := range w.Origins(c.Common().Args[0], nil) {
-				if fc, _ := resultOfCall(o); fc != nil && fc.Common().StaticCallee() != nil && fc.Common().StaticCallee().Name() == "format" {
+				if fc, _ := resultOfCall(o); fc != nil && fc.Common().StaticCallee() != nil && isBodyRenderer(fc.Common().StaticCallee()) {
 					continue
 				}
 				if isNilConst(o) {
@@ -636,7 +667,7 @@ func c12Verbosity(w *World, r *Report) {
 		if _, f := fieldLoad(c.Common().Value); f == nil {
 			continue
 		}
-		if len(c.Common().Args) == 3 && !pathEndsWith(c.Common().Args[1], "verboseErrors") {
+		if len(c.Common().Args) == 3 && !isOwnBoolField(c.Common().Args[1], fnPkgPath(grpcT)) {
 			okV = false
 		}
 	}
@@ -653,12 +684,52 @@ func c12Chain(w *World, r *Report) {
 		r.Undecided(ri, "ErrorChain not found")
 		return
 	}
+	// field names, resolved by type and use: the chain holds two pointers to its element type; the
+	// element links to the next one and carries an error. The head is the element Is() looks at.
+	hN, tN, nN, eN := "head", "tail", "next", "err"
+	if st, ok := ec.Underlying().(*types.Struct); ok {
+		var elemPtr types.Type
+		var ptrFields []string
+		for i := 0; i < st.NumFields(); i++ {
+			if pt, ok := st.Field(i).Type().Underlying().(*types.Pointer); ok {
+				if _, isStruct := pt.Elem().Underlying().(*types.Struct); isStruct {
+					if elemPtr == nil || types.Identical(elemPtr, st.Field(i).Type()) {
+						elemPtr = st.Field(i).Type()
+						ptrFields = append(ptrFields, st.Field(i).Name())
+					}
+				}
+			}
+		}
+		if elemPtr != nil && len(ptrFields) == 2 {
+			es := elemPtr.Underlying().(*types.Pointer).Elem().Underlying().(*types.Struct)
+			for i := 0; i < es.NumFields(); i++ {
+				if types.Identical(es.Field(i).Type(), elemPtr) {
+					nN = es.Field(i).Name()
+				}
+				if isErrorType(es.Field(i).Type()) {
+					eN = es.Field(i).Name()
+				}
+			}
+			if isFn := w.Method(ec, "Is"); isFn != nil {
+				for _, c := range findCalls(isFn, named("errors.Is")) {
+					if _, pp := accessPath(c.Common().Args[0]); len(pp) >= 2 {
+						hN = pp[len(pp)-2]
+					}
+				}
+			}
+			for _, f := range ptrFields {
+				if f != hN {
+					tN = f
+				}
+			}
+		}
+	}
 	if fn := w.Method(ec, "Is"); fn != nil {
 		r.Analysed(w.FnName(fn))
 		ok := false
 		for _, ret := range returnsOf(fn) {
 			for _, a := range alternatives(w, ret.Results[0], ret.Block()) {
-				if c, _ := resultOfCall(a.V); c != nil && callName(c.Common()) == "errors.Is" && pathEndsWith(c.Common().Args[0], "head", "err") && c.Common().Args[1] == fn.Params[1] {
+				if c, _ := resultOfCall(a.V); c != nil && callName(c.Common()) == "errors.Is" && pathEndsWith(c.Common().Args[0], hN, eN) && c.Common().Args[1] == fn.Params[1] {
 					ok = true
 				}
 			}
@@ -675,13 +746,13 @@ func c12Chain(w *World, r *Report) {
 				case "nil":
 					// only where there is no next element
 					if !srcOnlyVia(fn, s, func(f Fact) bool {
-						return f.Kind == FNil && (pathIs(f.V, "head") || pathIs(f.V, "head", "next"))
+						return f.Kind == FNil && (pathIs(f.V, hN) || pathIs(f.V, hN, nN))
 					}) {
 						ok, msg = false, "Unwrap can return nil although a next element exists"
 					}
 					// and not through any other nil test
 					seen := reachEntry(fn, factCut(func(f Fact) bool {
-						return f.Kind == FNil && !(pathIs(f.V, "head") || pathIs(f.V, "head", "next"))
+						return f.Kind == FNil && !(pathIs(f.V, hN) || pathIs(f.V, hN, nN))
 					}))
 					if !seen[s.At] {
 						ok, msg = false, "Unwrap returns nil depending on something else than head / head.next"
@@ -689,14 +760,14 @@ func c12Chain(w *World, r *Report) {
 				case "nonnil":
 					if mi, isMI := s.V.(*ssa.MakeInterface); isMI {
 						if a, isA := mi.X.(*ssa.Alloc); isA {
-							h, _ := storedField(a, "head")
-							if h != nil && pathIs(h, "head", "next") {
+							h, _ := storedField(a, hN)
+							if h != nil && pathIs(h, hN, nN) {
 								sawRest = true
 							} else {
 								ok, msg = false, "the unwrapped chain does not start at head.next"
 							}
-							t, _ := storedField(a, "tail")
-							if t == nil || !pathIs(t, "tail") {
+							t, _ := storedField(a, tN)
+							if t == nil || !pathIs(t, tN) {
 								ok, msg = false, "the unwrapped chain loses its tail"
 							}
 						}
@@ -708,7 +779,7 @@ func c12Chain(w *World, r *Report) {
 		eachInstr(fn, func(in ssa.Instruction) {
 			if iff, isIf := in.(*ssa.If); isIf {
 				for _, f := range append(condFacts(iff.Cond, true), condFacts(iff.Cond, false)...) {
-					if (f.Kind == FNil || f.Kind == FNonNil) && !(pathIs(f.V, "head") || pathIs(f.V, "head", "next")) {
+					if (f.Kind == FNil || f.Kind == FNonNil) && !(pathIs(f.V, hN) || pathIs(f.V, hN, nN)) {
 						ok, msg = false, "Unwrap decides on something else than head / head.next"
 					}
 				}
@@ -739,12 +810,12 @@ func c12Chain(w *World, r *Report) {
 			_, p := accessPath(st.Addr)
 			_, isNew := stripConv(st.Val).(*ssa.Alloc)
 			switch strings.Join(p, ".") {
-			case "tail.next":
+			case tN + "." + nN:
 				appendTail = appendTail || isNew
-			case "tail":
+			case tN:
 				setTail = setTail || isNew
-			case "head":
-				if !onlyVia(fn, st.Block(), func(f Fact) bool { return f.Kind == FNil && pathIs(f.V, "head") }) {
+			case hN:
+				if !onlyVia(fn, st.Block(), func(f Fact) bool { return f.Kind == FNil && pathIs(f.V, hN) }) {
 					headOnce = false
 				}
 			}
@@ -754,7 +825,7 @@ func c12Chain(w *World, r *Report) {
 		okErr := false
 		eachInstr(fn, func(in ssa.Instruction) {
 			if a, isA := in.(*ssa.Alloc); isA {
-				if v, _ := storedField(a, "err"); v != nil && v == fn.Params[1] {
+				if v, _ := storedField(a, eN); v != nil && v == fn.Params[1] {
 					okErr = true
 				}
 			}
@@ -1030,7 +1101,12 @@ func c12Challenge(w *World, r *Report) {
 
 func c12PlainMediaType(w *World, r *Report) {
 	ri := r.Rule("C12.5b", 1, "a body rendered as plain text is announced with the text/plain media type")
-	fn := w.Func(httpEHPkg, "format")
+	var fn *ssa.Function
+	for _, f := range w.Funcs {
+		if fnPkgPath(f) == modPath+"/"+httpEHPkg && !w.isMockFn(f) && f.Parent() == nil && isBodyRenderer(f) && f.Signature.Results().Len() >= 2 {
+			fn = f
+		}
+	}
 	if fn == nil {
 		r.Undecided(ri, "HTTP error body formatter not found")
 		return
